@@ -1,4 +1,5 @@
 import Qx.Proofs.C13
+import Qx.Proofs.C13Live
 /-!
 # C13 — a task's continuation runs exactly once, never after its context died
 
@@ -129,6 +130,97 @@ theorem every_delivery_is_the_finished_value (kind : Kind) (ops : List Op) (v : 
     ∀ k c d, Ev.ran k c d ∈ (run (init kind) ops).2 → d = deliveredOf kind v :=
   run_deliv ops (init kind) v ⟨fun _ => rfl, fun r hr => by simp [init] at hr⟩ hops
 
+
+/-! ### History level: "exactly once" (at least once + at most once)
+
+The one-step theorems say what `finish` / a late `then` do in a given state; the two theorems
+below lift them to whole histories: they name, in terms of the operation list alone, the
+situations in which the property promises a run, and show the continuation runs exactly once in
+the complete history, with the finished value, whatever precedes and follows. -/
+
+/-- **Attached before the promise finishes.**  `pre` is any history after which a handle exists
+and the promise is not finished; the continuation is attached; `mid` is any stretch of copying and
+dropping handles and destroying contexts (no further `then`, which would replace it — see
+`replaced_never_runs` — and no `finish`) that leaves a handle and the registered context alive;
+the promise is finished with `v`; `post` is anything.  Then the continuation runs, with `v`,
+exactly once in the whole history. -/
+theorem attached_before_finish_runs_exactly_once (kind : Kind) (pre mid post : List Op)
+    (ctx : Nat) (body : List Inner) (v : Nat) (hmid : ∀ op ∈ mid, op.quiet = true) :
+    let s0 := (run (init kind) pre).1
+    let s2 := (run (step s0 (.thenOp ctx body)).1 mid).1
+    s0.refs ≠ 0 → s0.finished = false → s2.refs ≠ 0 → s2.alive (s0.effCtx ctx) = true →
+    let evs := (run (init kind) (pre ++ .thenOp ctx body :: (mid ++ .finish v :: post))).2
+    Ev.ran s0.nextId (s0.effCtx ctx) (deliveredOf kind v) ∈ evs ∧
+      (ranIds evs).count s0.nextId = 1 := by
+  intro s0 s2 hrefs hnf hrefs2 halive evs
+  have hstep : step s0 (.thenOp ctx body) =
+      ({ s0 with nextId := s0.nextId + 1,
+                 cont := some { id := s0.nextId, ctx := s0.effCtx ctx, body := body } }, []) := by
+    simp [step, stepCore, hrefs, hnf]
+  have hw : Waiting (step s0 (.thenOp ctx body)).1
+      { id := s0.nextId, ctx := s0.effCtx ctx, body := body } := by
+    rw [hstep]; exact ⟨hnf, fun _ => rfl⟩
+  have hq := quiet_run_waiting mid _ _ hmid hw
+  have hc2 : s2.cont = some { id := s0.nextId, ctx := s0.effCtx ctx, body := body } :=
+    hq.1.cont hrefs2
+  have hk2 : s2.kind = kind := by
+    show (run _ mid).1.kind = kind
+    rw [run_kind, step_kind, run_kind]; rfl
+  have hfin := (finish_delivers_to_attached s2 _ v hrefs2 hq.1.nf hc2 halive).1
+  rw [hk2] at hfin
+  have hmem : Ev.ran s0.nextId (s0.effCtx ctx) (deliveredOf kind v) ∈ evs := by
+    show _ ∈ (run (init kind) (pre ++ .thenOp ctx body :: (mid ++ .finish v :: post))).2
+    rw [run_split]
+    refine List.mem_append_right _ (List.mem_append_right _ (List.mem_append_right _
+      (List.mem_append_left _ (stepCore_sub_step _ _ _ ?_))))
+    exact List.mem_of_mem_head? hfin
+  refine ⟨hmem, ?_⟩
+  have hle := cont_runs_at_most_once kind
+    (pre ++ .thenOp ctx body :: (mid ++ .finish v :: post)) s0.nextId
+  have hpos : 0 < (ranIds evs).count s0.nextId := List.count_pos_iff.mpr (mem_ranIds_of_mem hmem)
+  show (ranIds (run (init kind) _).2).count s0.nextId = 1
+  have hpos' : 0 < (ranIds (run (init kind)
+      (pre ++ .thenOp ctx body :: (mid ++ .finish v :: post))).2).count s0.nextId := hpos
+  omega
+
+/-- **Attached after the promise finished.**  `pre` is any history after which a handle exists,
+the promise is finished and (for value tasks) the value has not been handed out yet; then a
+`then` runs its continuation at once with the stored value, and exactly once in the whole
+history whatever follows. -/
+theorem attached_after_finish_runs_exactly_once (kind : Kind) (pre post : List Op)
+    (ctx : Nat) (body : List Inner) :
+    let s0 := (run (init kind) pre).1
+    s0.refs ≠ 0 → s0.finished = true → (kind = .value → s0.result.isSome) →
+    let evs := (run (init kind) (pre ++ .thenOp ctx body :: post)).2
+    (∃ d, Ev.ran s0.nextId (s0.effCtx ctx) d ∈ evs ∧ (kind = .value → d = s0.result)) ∧
+      (ranIds evs).count s0.nextId = 1 := by
+  intro s0 hrefs hf hres evs
+  have hk : s0.kind = kind := by show (run _ pre).1.kind = kind; rw [run_kind]; rfl
+  have hhead : ∃ d, Ev.ran s0.nextId (s0.effCtx ctx) d ∈ (stepCore s0 (.thenOp ctx body)).2 ∧
+      (kind = .value → d = s0.result) := by
+    cases kind with
+    | void =>
+      refine ⟨none, ?_, fun h => by cases h⟩
+      simp [stepCore, hrefs, hf, hk]
+    | value =>
+      have := hres rfl
+      cases hr : s0.result with
+      | none => rw [hr] at this; cases this
+      | some r =>
+        refine ⟨some r, ?_, fun _ => rfl⟩
+        exact List.mem_of_mem_head? (late_then_gets_value s0 r ctx body hrefs hf hk hr).1
+  obtain ⟨d, hd, hdv⟩ := hhead
+  have hmem : Ev.ran s0.nextId (s0.effCtx ctx) d ∈ evs := by
+    show _ ∈ (run (init kind) (pre ++ .thenOp ctx body :: post)).2
+    rw [run_append]; simp only [run]
+    exact List.mem_append_right _ (List.mem_append_left _ (stepCore_sub_step _ _ _ hd))
+  refine ⟨⟨d, hmem, hdv⟩, ?_⟩
+  have hle := cont_runs_at_most_once kind (pre ++ .thenOp ctx body :: post) s0.nextId
+  have hpos : 0 < (ranIds (run (init kind) (pre ++ .thenOp ctx body :: post)).2).count s0.nextId :=
+    List.count_pos_iff.mpr (mem_ranIds_of_mem hmem)
+  show (ranIds (run (init kind) _).2).count s0.nextId = 1
+  omega
+
 /-! ### Non-vacuity: the hypotheses above are met by reachable states. -/
 
 example : (run (init .value) [.thenOp 1 [], .finish 5]).2 = [.ran 0 1 (some 5)] := by decide
@@ -143,5 +235,17 @@ example : (run (init .value) [.finish 3, .copyHandle, .dropHandle, .dropHandle])
 continuation still completes, the record is released at the end of the step -/
 example : (run (init .value) [.copyHandle, .thenOp 1 [.dropAll, .thenI 1], .finish 5]).2
     = [.ran 0 1 (some 5), .released] := by decide
+
+/-- hypotheses of `attached_before_finish_runs_exactly_once` met by a history with copies, a dropped
+handle and a foreign context destroyed in between -/
+example :
+    let pre : List Op := [.copyHandle, .thenOp 3 []]
+    let mid : List Op := [.copyHandle, .destroyCtx 2, .dropHandle, .dropHandle]
+    let s0 := (run (init .value) pre).1
+    let s2 := (run (step s0 (.thenOp 1 [.thenI 1])).1 mid).1
+    (∀ op ∈ mid, op.quiet = true) ∧ s0.refs ≠ 0 ∧ s0.finished = false ∧ s2.refs ≠ 0 ∧
+      s2.alive (s0.effCtx 1) = true := by decide
+example : let s0 := (run (init .value) [.copyHandle, .finish 4, .dropHandle]).1
+    s0.refs ≠ 0 ∧ s0.finished = true ∧ s0.result.isSome := by decide
 
 end Qx.C13
